@@ -49,7 +49,7 @@ def gen(rng, tier):
             for fmt in ("f32", "f64"):
                 for f in exponent_sweep(rng, fmt, w * n):
                     yield f"nt_from_{fmt} {s}{cfg} {hx(f)}", "exponent-sweep"
-    reps = 30 if tier == "thorough" else 5
+    reps = 60 if tier == "thorough" else 30
     for cfg in cfgs(tier):
         w, n = wn(cfg)
         W = w * n
